@@ -50,7 +50,7 @@ func main() {
 			fmt.Fprintln(os.Stderr, "ERROR", err)
 			os.Exit(2)
 		}
-		for _, n := range p.DeclaredFuncNames() {
+		for _, n := range an.BaselineLines(p.Pkgs) {
 			fmt.Println(n)
 		}
 	case "list":
@@ -186,6 +186,9 @@ func runProperty(p *an.Prog, id, tier, goarch, outDir string, findings []an.Find
 		return rc
 	}
 	extra := map[string]interface{}{"goarch": *arch, "positive_controls": props.SelfCheckCount}
+	if len(p.Renamed) > 0 {
+		extra["renames_undone_in_memory"] = p.Renamed
+	}
 	if p.Inlined != nil {
 		extra["inlined_helper_call_sites"] = p.Inlined.Sites
 		if p.Inlined.Sites > 0 {
